@@ -220,6 +220,32 @@ def main(argv):
         c, m = sample_cases(rng, fails, formula, mass, envp, exposure, lists, [0.3])
         cases += c
         meta += m
+    # histories on one Sample object: calculate, ask, calculate again under other conditions (same rest times), ask
+    # again - the second answer is about the second calculation, i.e. what a fresh Sample gives
+    for formula in rng.sample(["Co30Fe70", "Au", "Cu", "Mn", "Ti", "Al2O3", "Ag"], 3 if n <= 12 else 7):
+        rest = [0, 1, 24, 360]
+        env1 = act.ActivationEnvironment(10 ** rng.uniform(6, 9), 0.0, rng.choice([0.0, 50.0]))
+        env2 = act.ActivationEnvironment(env1.fluence * rng.choice([0.01, 30.0]), 0.0, env1.fast_ratio)
+        e1, e2 = 10 ** rng.uniform(-1, 2), 10 ** rng.uniform(-1, 2)
+        s = act.Sample(formula, 1.0)
+        fresh = act.Sample(formula, 1.0)
+        try:
+            s.calculate_activation(env1, exposure=e1, rest_times=rest)
+            s.decay_time(0.3 * sum(float(v[0]) for v in s.activity.values()))
+            s.calculate_activation(env2, exposure=e2, rest_times=rest)
+            fresh.calculate_activation(env2, exposure=e2, rest_times=rest)
+            target = 0.3 * sum(float(v[0]) for v in fresh.activity.values())
+            t_again, t_fresh = attempt(s.decay_time, target), attempt(fresh.decay_time, target)
+        except Exception as e:  # noqa
+            continue
+        same = (type(t_again) is type(t_fresh)) if isinstance(t_fresh, BaseException) or isinstance(t_again, BaseException) else \
+            abs(float(t_again) - float(t_fresh)) <= 1e-9 * max(1.0, abs(float(t_fresh)))
+        if not same:
+            fails.add("C15:stale-after-recalculation",
+                      "Sample(%r): calculate_activation(fluence %g, exposure %g); decay_time(..); calculate_activation(fluence %g, exposure %g); "
+                      "decay_time(%r) = %r, a fresh Sample calculated the second way gives %r"
+                      % (formula, env1.fluence, e1, env2.fluence, e2, target, t_again, t_fresh),
+                      formula=formula, history=True)
     # weakly activated samples with several comparable products and very small targets: there the absolute
     # tolerance of the root finder is coarse and only the 0.1% guard stands between a wrong time and the caller
     for formula in rng.sample(["Ti", "Al2O3", "Cu", "NaCl", "Ag", "AuCu3", "CaCO3", "Ni", "Zn", "Mo"], 4 if n <= 12 else 10):
